@@ -571,6 +571,7 @@ mod verif_replay {
         dump("pre", &mut w);
         w.writer.arm(%(fault_at)d, vec![%(shorts)s]);
         %(op)s
+        println!("VR fired={}", if w.writer.fault_at >= 0 && w.writer.ops > w.writer.fault_at { 1 } else { 0 });
         w.writer.armed = false;
         dump("post", &mut w);
         std::mem::forget(w);
@@ -666,7 +667,8 @@ class WriterReplay:
             if not pre_ok:
                 return False, "native pre-state differs from the model's pre-state", info
             sc.res = parse_result(kv)
-            if pre.get("fault_at", -1) >= 0 and kv.get("res", "").startswith("err"):
+            if pre.get("fault_at", -1) >= 0 and (kv.get("fired") == "1" if "fired" in kv else kv.get("res", "").startswith("err")):
+                # the injected device error was actually delivered to the crate during the call (whatever the call then returned)
                 f_ = writer_fields(I)
                 sc.holder["w"].fields[f_["writer"]].log.append(("fault", "native", pre["fault_at"]))
             if self.patch:
@@ -782,6 +784,7 @@ mod verif_replay {
         dump("pre", &r);
         r.reader.arm(%(fault_at)d, vec![%(shorts)s]);
         %(op)s
+        println!("VR fired={}", if r.reader.fault_at >= 0 && r.reader.ops > r.reader.fault_at { 1 } else { 0 });
         dump("post", &r);
     }
 }
@@ -883,7 +886,7 @@ def _read_extra(model, o):
 
 def _read_rebuild(I, pre, kv):
     rd, dev = native_reader_obj(I, pre, kv, "post")
-    if pre.get("fault_at", -1) >= 0 and kv.get("res", "").startswith("err"):
+    if pre.get("fault_at", -1) >= 0 and (kv.get("fired") == "1" if "fired" in kv else kv.get("res", "").startswith("err")):
         dev.log.append(("fault", "native", pre["fault_at"]))
     st = dict(npages=U64(pre["npages"]), offset=U64(pre["offset"]), cached=None, content=CBuf(pre["dev"]))
     return dict(res=parse_result(kv), rd=rd, buf=CBuf(bytes.fromhex(kv.get("dst", "")), pre["n"]), n=U64(pre["n"]), dev=dev, st=st,
